@@ -39,6 +39,8 @@ use std::ffi::CString;
 use std::ops::ControlFlow::Break;
 use yash_env::Env;
 use yash_env::builtin::Result;
+use yash_env::option::Option::Monitor;
+use yash_env::option::State::On;
 use yash_env::semantics::command::search::search_path;
 use yash_env::semantics::command::{ReplaceCurrentProcessError, replace_current_process};
 use yash_env::semantics::{Divert::Abort, ExitStatus, Field};
@@ -78,6 +80,7 @@ where
         if let Some(path) = path {
             let location = name.origin.clone();
             let Err(e) = replace_current_process(env, path, args).await;
+            restore_internal_dispositions(env).await;
             let report = ExecFailure { inner: e, location };
             let _ = report_failure(env, &report).await;
             result.set_exit_status(env.exit_status);
@@ -88,6 +91,23 @@ where
     }
 
     result
+}
+
+/// Re-enables the internal dispositions that [`replace_current_process`] has
+/// disabled, in case the shell goes on after a failed `exec`.
+async fn restore_internal_dispositions<S: SignalSystem>(env: &mut Env<S>) {
+    if env.is_interactive() {
+        env.traps
+            .enable_internal_dispositions_for_terminators(&env.system)
+            .await
+            .ok();
+        if env.options.get(Monitor) == On {
+            env.traps
+                .enable_internal_dispositions_for_stoppers(&env.system)
+                .await
+                .ok();
+        }
+    }
 }
 
 #[derive(Debug)]
